@@ -229,6 +229,16 @@ def run_case(case, prop):
                             nn = sizes[attrs.index(a)]
                             mats.append(np.array([[r.choice([-1.0, 0.0, 1.0, 2.0, 0.5]) for _ in range(nn)] for _ in range(rows)]))
                         ans = model.krondot(mats)
+                        # krondot exponentiates the raw parameters and logZ by construction (see ASSUMPTIONS): an estimated model
+                        # whose parameters left the range of exp() (|logZ| <= sum_c max|theta_c| + log|domain|) is outside the claim
+                        tb = float(np.sum(np.log(np.asarray(sizes, dtype=float))))
+                        for c in model.cliques:
+                            t = np.asarray(model.potentials[c].values, dtype=float)
+                            tb += float(np.max(np.abs(t[np.isfinite(t)]), initial=0))
+                        if tb >= 600:
+                            probes['krondot-outside-exp-range'] = probes.get('krondot-outside-exp-range', 0) + 1
+                            kinds.append('k-')
+                            continue
                         letters = 'abcdefghijklmnopqrstuvwxyz'
                         expr = ','.join(letters[i].upper() + letters[i] for i in range(len(attrs))) + ',' + letters[:len(attrs)] + '->' + letters[:len(attrs)].upper()
                         want = np.einsum(expr, *mats, P)
